@@ -62,7 +62,7 @@ CHECKS["C04"] = {
     "rule": "Engine A: every interleaving (event sequences, depth 4 quick / 5 thorough) of three clients c1=(10.0.0.2:4000,u1), c2=(same IP other port,u2), c3=(other IP,u1) "
             "each doing {Allocate with one shared transaction id, Refresh0, CreatePermission [A], ChannelBind (n1,A),(n1,B)} plus clock advances around deadlines, "
             "2 timeout configurations; " + SWEEP + "The reference model is keyed by client 5-tuple, so any cross-allocation effect is a disagreement. "
-            "Part family: clients 10.0.0.2:4000, [::10.0.0.2]:4000 (same port, IPv4-compatible IPv6 form) and 10.0.0.2:4001. Part tcp: two TCP allocations of different users on one stream listener reusing "
+            "Part vtx also offers a Refresh 0 of c1 whose relay socket refuses to close (once): the allocation is gone, the next one on the 5-tuple inherits nothing and the first relayed address relays to nobody. Part family: clients 10.0.0.2:4000, [::10.0.0.2]:4000 (same port, IPv4-compatible IPv6 form) and 10.0.0.2:4001. Part tcp: two TCP allocations of different users on one stream listener reusing "
             "peers for Connect / inbound connections / ConnectionBind (own and the other client's connection ids). "
             "Part dual: one server with a UDP socket and a stream listener on the same ip:port sharing one relay address generator object; clients c1 (UDP) and c1t (stream) with the same ip:port and user, "
             "c2t (stream): Allocate, Refresh0, CreatePermission, ChannelBind, closing a control connection, clock. "
@@ -381,8 +381,8 @@ _ADD = {
            "refusing its first Close: the server still tries to close each of them.",
     "C16": " Also (Engine B): an inbound peer connection accepted at the relayed address while the client deletes the allocation and allocates again on the same 5-tuple: an id announced late is not bindable under the second allocation.",
     "C17": " Handlers are also built at a fractional instant of the clock; a REST-format credential is presented to the plain handler (and the reverse) and must not authenticate; granted transaction ids are replayed and forged end to end. Part stamps: usernames written with the reference for 70+ expiry stamps across the whole int64 range (powers of two, both signs, stamps whose distance from now is just inside / outside what a time.Duration holds, 2^63-1, -2^63) and the library's generators called with durations -2^63, -2^63+1, 2^63-2, 2^63-1 ns, each with its genuine password at three instants: ok <=> now.Unix() <= stamp.",
-    "C18": " S16: the Connect dial of S15 completes at the very instant Server.Close is called (scheduler option IdleTies: both sleepers of that instant are enabled together).",
-    "C20": " Listening addresses are given as IP literals and as host names (simnet resolver: relay.test, relay6.test).",
+    "C18": " S16: the Connect dial of S15 completes at the very instant Server.Close is called (scheduler option IdleTies: both sleepers of that instant are enabled together). S17: the operator's allocation handlers call Server.AllocationCount (a metrics handler) while one allocation expires, another is deleted by Refresh 0 and the server is closed: no lock-up.",
+    "C20": " Listening addresses are given as IP literals and as host names (simnet resolver: relay.test, relay6.test). In (v) every address object handed out for a live allocation is read again after every later allocation of the history and must still say what it said.",
 }
 for _k, _v in _ADD.items():
     CHECKS[_k]["rule"] += _v
